@@ -222,6 +222,9 @@ func (l *linkedBuffer) WriteString(str string) error {
 
 func (l *linkedBuffer) recycle() {
 	l.recycleMux.Lock()
+	// slices parked by ReadBytes/Peek must go back too, otherwise they leak when the
+	// stream is closed without ReleasePreviousRead
+	l.cleanPinnedList()
 	for l.sliceList.size() > 0 {
 		slice := l.sliceList.popFront()
 		if slice.isFromShm {
